@@ -111,6 +111,13 @@ theorem shipped_tokens_in_position_order (E : Env) (src : List Nat) (hfin : (tok
     ∀ t ∈ (tokenize E XV.Driver.genPats src).toks, t.start ≤ t.stop :=
   tokens_in_position_order E _ gen_pseudo_progress gen_fstr_len src hfin
 
+/-- **C08 (text), instantiated on the working tree's patterns**: every token except FSTRING_END and the scanner's brace
+    operators is the source text between its coordinates. -/
+theorem shipped_tokens_are_source_slices (E : Env) (src : List Nat) (hfin : (tokenize E XV.Driver.genPats src).err = none) :
+    ∀ t ∈ (tokenize E XV.Driver.genPats src).toks, t.ty ≠ .FSTRING_END → ¬ (t.ty = .OP ∧ (t.str = [123] ∨ t.str = [125])) →
+      t.str = srcText (splitLines src []) t.start t.stop :=
+  all_tokens_but_fstring_delimiters_are_source_slices E _ gen_pseudo_progress gen_fstr_len src hfin
+
 /-- Non-vacuity on the shipped patterns: `f"a{x:>{w}}b{f'{y}'}"⏎` finishes with 18 tokens, f-string parts included. -/
 example : (tokenize ⟨[], []⟩ XV.Driver.genPats ("f\"a{x:>{w}}b{f'{y}'}\"\n".toList.map Char.toNat)).err = none ∧
     (tokenize ⟨[], []⟩ XV.Driver.genPats ("f\"a{x:>{w}}b{f'{y}'}\"\n".toList.map Char.toNat)).toks.length = 18 := by decide +kernel
